@@ -78,6 +78,7 @@ class PeriodicRun:
         class HCms(Cms):
             def on_sense(self, sensor, time, data):
                 run.cms_log.append((sensor, time, list(data)))
+                run.keep(data, time, 'the Cms')
 
         with instrument.use_bus(self.bus):
             self.system = System()
@@ -97,6 +98,7 @@ class PeriodicRun:
             self.cms = None
             self.cb_log = []
             self.cms_log = []
+            self.kept = []
             self.t0 = 0.0
             self.twin = None
             if not case.get('late'):
@@ -130,9 +132,26 @@ class PeriodicRun:
                 self.cms.add_sensor(self.sensor)
                 self.cms.add_sensor(self.twin)
 
+    def keep(self, data, time, who):
+        # a consumer may keep the list of values it was handed (a Cms logging its measurements does): it is that
+        # measurement's values and must still be when later measurements have been made
+        self.kept.append((data, list(data), time, who))
+        if len(self.kept) > 64:
+            self.kept.pop(0)
+
+    def check_kept(self):
+        for raw, cp, tm, who in self.kept:
+            if raw != cp or len(raw) != len(cp):
+                self.fail('handed_out_values_changed', f'the list of values handed to {who} for the measurement at '
+                          f'{tm!r} was {cp}; at {self.env.now!r} the same list reads {raw}')
+                return
+        self.sh.count('kept_value_lists_rechecked', len(self.kept))
+
     def make_cb(self, j):
         def cb(sensor, time, data):
             self.cb_log.append((j, sensor, time, list(data), data))
+            if j == 0:
+                self.keep(data, time, 'callback 0')
             lens = sorted({len(v) for v in sensor.data.values()})
             cap = self.case['capacity']
             if cap is not None and lens and lens[-1] > cap and not self.failed:
@@ -222,6 +241,10 @@ class PeriodicRun:
             if self.sensor.last_sense != vals:
                 self.fail('last_sense', f'last_sense {self.sensor.last_sense} after measuring {vals} at {t!r}')
                 return
+            self.check_kept()
+            if self.failed:
+                return
+            self.keep(self.sensor.last_sense, t, 'a reader of last_sense')
             self.sh.count('measurements_checked')
             cap = case['capacity']
             if cap is not None and self.count > cap:
@@ -294,6 +317,8 @@ class PeriodicRun:
                 self.fail('crash', f'{type(e).__name__}: {e} {traceback.format_exc()[-1000:]}')
             if case.get('late') and not self.failed:
                 self.sh.count('sensors_mounted_between_runs')
+            if not self.failed:
+                self.check_kept()
         cap = case['capacity']
         return cap is not None and self.count > cap
 
@@ -317,7 +342,11 @@ class PartRun:
             self.env = self.system.env
             src = Source(name='S', part_generator=PartGenerator('p', value=1.0, quality=1.0),
                          cycle_time=case['src_ct'])
-            self.proc = PartProcessor(name='P', upstream=[src], cycle_time=case['ct'])
+            feed = src
+            if case.get('batch'):
+                from simprocesd.model.factory_floor import PartBatcher
+                feed = PartBatcher(name='T', upstream=[src], output_batch_size=case['batch'])
+            self.proc = PartProcessor(name='P', upstream=[feed], cycle_time=case['ct'])
             Sink(name='K', upstream=[self.proc])
             self.proc.add_finish_processing_callback(self.on_finish)
             self.probes = [AttributeProbe('quality', None), Probe(lambda part: part.id, None),
@@ -440,7 +469,8 @@ def gen_part(rng, tie):
             'nprobes': rng.choice([1, 2, 3]), 'capacity': rng.choice([None, 1, 2, 4]),
             'qualities': [rng.choice([1, 0.5, 0.25, 0.75]) for _ in range(rng.randint(1, 4))],
             'failures': sorted(rng.sample([x / 2 for x in range(2, 80)], rng.choice([0, 0, 1, 3]))),
-            'horizon': float(rng.choice([20, 40, 60])), 'tie': tie, 'tie_seed': rng.randrange(1 << 30)}
+            'horizon': float(rng.choice([20, 40, 60])), 'tie': tie, 'tie_seed': rng.randrange(1 << 30),
+            'batch': rng.choice([None, None, 2, 3, 4])}
 
 
 def run_case(sh, case):
